@@ -17,8 +17,9 @@
 (*       (x0,x1,y0,y1); extdef: the default extent was used), H, W, G,     *)
 (*       out (H x W, value * G rounded; NaN = NANV), oshape, ps            *)
 (*  api "tri"      Mesh2DDelaunay / Mesh2DVoronoi(V): cls, V, parts,       *)
-(*       nbr, sizes, edge, F, areas (area * F rounded), unb (cells given   *)
-(*       as -1), mag (areas_for_magnification * F), pixels, org2, ext,     *)
+(*       nbr, sizes, edge, F, areas (area * F rounded), aq (the area as a  *)
+(*       reduced fraction where alpha could identify one), unb (cells as   *)
+(*       -1), mag (areas_for_magnification * F), pixels, org2, ext,        *)
 (*       hist, raised                                                      *)
 (*  api "split"    split_cross: cls, V, F, sent (= F / tick^2, the -1 of   *)
 (*       unbounded cells in lattice units), s4 ((2h)^2 * F rounded, h the  *)
@@ -144,6 +145,13 @@ AreasAgree(V, T, hull, areas, F) ==
         LET ks == CellKites(V, T, k) IN
         InRange(areas[k]) /\ areas[k] >= AreaLoF(ks, F) - 1 /\ areas[k] <= AreaHiF(ks, F) + 1
 
+\* where the exact denominator is small the float has been identified with a fraction (alpha: limit_denominator(10^4),
+\* residual 1e-9): it must be the shoelace rational itself
+ExactAreasAgree(V, T, hull, aq) ==
+    \A k \in Idx(V) \ hull :
+        LET ks == CellKites(V, T, k) IN
+        ExactFits(ks) => LET a == AreaExact(ks) IN (a[2] <= 10000 => (Len(aq[k]) = 2 /\ aq[k][1] = a[1] /\ aq[k][2] = a[2]))
+
 ClausesTri(r) ==
     IF ~ TriWellFormed(r) THEN << Cl("record-well-formed", FALSE) >>
     ELSE LET V == PtsOf(r.V)  n == Len(r.V) IN
@@ -173,6 +181,7 @@ ClausesTri(r) ==
          ELSE
          << Cl("unbounded-cells-carry-minus-one", SeqToSet(r.unb) = Minus1(hull)),
             Cl("bounded-cell-areas-are-the-shoelace-areas", AreasAgree(V, T, hull, r.areas, r.F)),
+            Cl("bounded-cell-areas-are-the-exact-shoelace-rationals", Len(r.aq) = n /\ ExactAreasAgree(V, T, hull, r.aq)),
             Cl("magnification-areas-are-the-areas-with-zero-for-unbounded-cells",
                /\ \A k \in hull : r.mag[k] = 0
                /\ (r.cls = "Mesh2DVoronoi" => AreasAgree(V, T, hull, r.mag, r.F))) >>
@@ -271,7 +280,7 @@ Sig(r) ==
             "split_cross:" \o r.cls \o
             (IF TriWellFormed(r) /\ Len(r.V) >= 4 /\ r.F >= 1 /\ r.sent >= 1 /\ GeneralPosition(PtsOf(r.V))
              THEN (IF SplitCaps(r).hull = 1 .. Len(r.V) THEN ":no-bounded-cell"
-                   ELSE IF SplitCaps(r).hi10 <= 0 THEN ":percentile-cap-not-positive" ELSE ":cap-positive") ELSE ":malformed")
+                   ELSE IF SplitCaps(r).lo10 <= 0 THEN ":percentile-cap-not-positive" ELSE ":cap-positive") ELSE ":malformed")
       [] r.api = "tinterp" ->
             r.cls \o ".interpolated_array_from:" \o
             (IF TInterpWellFormed(r) /\ ~ r.extdef /\ ExtentSymmetric(r, r.Q) THEN "extent-and-shape-symmetric-in-y-and-x"
